@@ -20,6 +20,8 @@ Sq(x) == (x * x + 17 * x + 5) % M
 H(s, i) == Sq((Sq(((s % M) * 31 + (i % 1499) * 1009 + 12347) % M) + (i % 97)) % M)
 Pick(s, i, n) == (H(s, i) \div 7) % n            \* in 0..n-1
 
+Plain4 == <<"", "i", "s", "is">>
+All8 == <<"", "i", "s", "is", "n", "ni", "ns", "nis">>
 RuleName(i) == <<"A", "B", "C", "D", "E", "F">>[i]
 
 (* ---------- random expressions ------------------------------------------- *)
@@ -234,6 +236,56 @@ GenDiag(s, cx0) ==
                                 body |-> DiagE(H(s, 40 + i), 1 + Pick(s, 50 + i, 2), [cx0 EXCEPT !.self = i, !.n = n])]]
   IN [rules |-> rules]
 
+(* ---------- the "stress" family: code generation only (C08), every option set ------------- *)
+Num(i) == ToString(i)
+\* n rules R1..Rn chained: R_i <- 'a' R_{i+1} / [b-c] R_{i+1}? / 'd'  (every rule used twice, so none is inlined)
+ChainRule(i, n, withAct) ==
+  [name |-> "R" \o Num(i),
+   body |-> IF i = n THEN AltE(<<Chr(100), Dot>>)
+            ELSE AltE(<<SeqE(<<Chr(97), Ref("R" \o Num(i + 1))>> \o (IF withAct THEN <<Act(0)>> ELSE <<>>)),
+                        SeqE(<<Rng(98, 99), Opt(Ref("R" \o Num(i + 1)))>>), Chr(100)>>)]
+ChainGrammar(n, withAct) == NumberActions([rules |-> [i \in 1..n |-> ChainRule(i, n, withAct)]])
+
+StressShapes == 15
+StressNames == <<"rules300", "rules1000", "rules3000", "import1", "importalias", "importgroup", "importdup", "importdupalias",
+                 "headercomments", "oddchars", "predcomments", "acts140", "unusedmiddle", "textnocapture", "predlinecomment">>
+SmallG(body) == [rules |-> <<[name |-> "A", body |-> body], [name |-> "B", body |-> AltE(<<Chr(98), SeqE(<<Chr(99), Ref("B")>>)>>)]>>]
+UseB == SeqE(<<Ref("B"), Opt(Ref("B"))>>)
+StressText(k) ==
+  LET st == DefaultStyle
+      NL == "\n"
+      imp(t) == t \o NL \o NL
+  IN
+  CASE k = 1 -> Render(ChainGrammar(300, FALSE), st)
+    [] k = 2 -> Render(ChainGrammar(1000, FALSE), st)
+    [] k = 3 -> Render(ChainGrammar(3000, FALSE), st)
+    [] k = 4 -> RenderWith(SmallG(SeqE(<<UseB, RawAct(" _ = strings.ToUpper(text) ")>>)), st, "", imp("import \"strings\""))
+    [] k = 5 -> RenderWith(SmallG(SeqE(<<UseB, RawAct(" _ = str.Itoa(len(text)) ")>>)), st, "", imp("import str \"strconv\""))
+    [] k = 6 -> RenderWith(SmallG(SeqE(<<UseB, RawAct(" _ = strings.ToUpper(text); _ = u.QueryEscape(text) ")>>)), st, "",
+                           imp("import (" \o NL \o " \"strings\"" \o NL \o " u \"net/url\"" \o NL \o ")"))
+    [] k = 7 -> RenderWith(SmallG(SeqE(<<UseB, RawAct(" _ = fmt.Sprint(text); _ = os.Args ")>>)), st, "",
+                           imp("import \"fmt\"" \o NL \o "import \"os\""))
+    [] k = 8 -> RenderWith(SmallG(SeqE(<<UseB, RawAct(" _ = f.Sprint(text); _ = sc.Itoa(1) ")>>)), st, "",
+                           imp("import f \"fmt\"" \o NL \o "import sc \"strconv\""))
+    [] k = 9 -> RenderWith(SmallG(UseB), st, "# a leading comment" \o NL \o "// another one, Go style" \o NL \o NL \o "#third" \o NL, "")
+    [] k = 10 -> Render(SmallG(SeqE(<<Chr(39), Chr(34), Chr(92), Chr(0), Chr(7), Chr(27), Chr(127), Chr(233), Chr(27721), Chr(128512), Chr(1114111),
+                                      Cls(<<Item(0, 31), Single(93), Single(45), Single(94), Single(92), Item(127, 255), Item(65536, 1114111)>>, FALSE, FALSE),
+                                      Cls(<<Single(39), Single(34), Single(96)>>, TRUE, FALSE), Str(<<96, 36, 123, 125>>, FALSE), UseB>>)), st)
+    [] k = 15 -> Render(SmallG(SeqE(<<RawPred(" true // trailing" \o NL \o " "), UseB>>)), st)
+    [] k = 11 -> Render(SmallG(SeqE(<<RawPred(" /* a comment */ true "), RawPred(" func() bool { return len(\"*/\") == 2 }() "),
+                                      UseB, RawAct(" if true { _ = \"{}\" } /* { } */ ")>>)), st)
+    [] k = 12 -> Render(ChainGrammar(140, TRUE), [st EXCEPT !.act = "none"])
+    [] k = 13 -> Render([rules |-> <<[name |-> "A", body |-> SeqE(<<Ref("C"), Star(Ref("C"))>>)],
+                                    [name |-> "Dead", body |-> SeqE(<<Chr(120), Plus(Chr(121))>>)],
+                                    [name |-> "C", body |-> AltE(<<SeqE(<<Plus(Rng(97, 99)), Star(Chr(100))>>), SeqE(<<Chr(101), Opt(Ref("C"))>>)>>)],
+                                    [name |-> "D2", body |-> Chr(122)]>>], st)
+    [] k = 14 -> Render(SmallG(SeqE(<<UseB, RawAct(" _ = text ")>>)), st)
+StressScenario(n) ==
+  [id |-> n, family |-> "stress", seed |-> SEED, grammar |-> [rules |-> <<>>], text |-> StressText(n), shape |-> StressNames[n],
+   optsets |-> All8, inputs |-> <<>>, plan |-> <<>>, hist |-> <<>>,
+   collect |-> [toks |-> FALSE, exec |-> FALSE, ast |-> FALSE, msg |-> FALSE, evs |-> FALSE],
+   allu |-> FALSE, norun |-> TRUE, actstyle |-> "full", nowarn |-> n # 13]
+
 (* ---------- inputs ------------------------------------------------------- *)
 RECURSIVE AllStrings(_, _)
 AllStrings(alpha, n) ==
@@ -285,14 +337,12 @@ Trunc(w, n) == IF Len(w) > n THEN SubSeq(w, 1, n) ELSE w
 
 (* ---------- families ----------------------------------------------------- *)
 ABC == <<97, 98, 99>>
-Plain4 == <<"", "i", "s", "is">>
-All8 == <<"", "i", "s", "is", "n", "ni", "ns", "nis">>
 
 PlanEntry(entry, memo, size, u, skipi) == [entry |-> entry, memo |-> memo, size |-> size, u |-> u, skipi |-> skipi]
 
 \* family parameters
 Fam ==
-  CASE FAMILY = "core" ->   \* C01 C02 C03 C06: every core operator, sugar, predicates; tokens only
+  CASE FAMILY \in {"core", "stress"} ->   \* C01 C02 C03 C06: every core operator, sugar, predicates; tokens only
          [cx |-> [alpha |-> ABC, acts |-> TRUE, caps |-> TRUE, preds |-> TRUE, sugar |-> TRUE, capnull |-> FALSE, maxrules |-> 4, self |-> 1, n |-> 1],
           depth |-> 3, optsets |-> Plain4, exhaust |-> 3, alphaIn |-> ABC, extraAlpha |-> <<97, 98, 99, 65, 100>>, nextra |-> 10,
           collect |-> [toks |-> TRUE, exec |-> FALSE, ast |-> FALSE, msg |-> FALSE], entries |-> TRUE, memoOff |-> TRUE, act |-> "full"]
@@ -379,6 +429,8 @@ IsWF(n) == FAMILY = "diag" \/ WFB(BodyMap(Core(Candidate(n))))
 RECURSIVE Collect(_, _)
 Collect(c, n) ==   \* scenarios of chunk c: candidates n = c, c + CHUNKS, ...
   IF n > NCAND THEN <<>>
+  ELSE IF FAMILY = "stress"   \* the 1000- and 3000-rule grammars only when at least 100 candidates are asked for (thorough tier)
+       THEN (IF n <= StressShapes /\ (n \notin {2, 3} \/ NCAND >= 100) THEN <<StressScenario(n)>> ELSE <<>>) \o Collect(c, n + CHUNKS)
   ELSE (IF IsWF(n) THEN <<Scenario(n)>> ELSE <<>>) \o Collect(c, n + CHUNKS)
 
 VARIABLES chunk, done
